@@ -120,7 +120,7 @@ Qed.
 Lemma covertree_model_exact_partial_lemma : forall d N top k fuel rows q cands,
   metric_on (in_range N) d -> (k < N)%nat ->
   ct_inv_b d top = true -> ct_holds_b N top = true -> is_leaf top = false ->
-  ct_query d (S k) (valid_b d (leaf_points top) (S k)) fuel top = Some (rows, true) ->
+  ct_query false d (S k) (valid_b d (leaf_points top) (S k)) fuel top = Some (rows, true) ->
   In (q, cands) rows -> nodup_b cands = true ->
   forallb (fun j => (0 <=? j) && (j <? Z.of_nat N)) cands = true ->
   exists l, ct_select_fixed d (q :: cands) k = Some l /\ is_knn d N q k l.
